@@ -573,3 +573,85 @@ class Gen:
             return dict(indom={k: len(v) for k, v in env.items()}, x={k: fl(v) for k, v in env.items()}, expr=t,
                         wm=r.random() < 0.6, space=r.choice(["U", "U", "R"]))
         raise RuntimeError("generator exhausted")
+
+
+# ---------------------------------------------------------------------------------------------- Linearization arithmetic
+def lin_arith(b, t, base, rng=None):
+    """Evaluate the tree with the arithmetic of `Linearization` objects themselves (`__mul__`, `_myadd`, `ptw`, `vdot`,
+    `sum`, `__getitem__`, `__truediv__`, `__pow__`, `__neg__`, scalar and field operands) instead of building an
+    operator tree; nodes without a Linearization method apply the one-node operator to the Linearization."""
+    ift = b.ift
+    k = t["t"]
+    rec = lambda s: lin_arith(b, s, base, rng)
+    if k == "var":
+        return base if b.single else base[t["k"]]
+    if k == "add":
+        return rec(t["a"]) + rec(t["b"])
+    if k == "sub":
+        return rec(t["a"]) - rec(t["b"])
+    if k == "mul":
+        tb = t["b"]
+        if tb["t"] == "ptw" and tb["f"] == "reciprocal":
+            return rec(t["a"]) / rec(tb["a"])                       # __truediv__
+        return rec(t["a"]) * rec(t["b"])
+    if k == "scale":
+        la = rec(t["a"])
+        c = t["c"]
+        if c == -1.0:
+            return -la
+        if c in (0.5, 0.25, 2.0) and rng is not None and rng.random() < 0.5:
+            return la / (1.0 / c)                                   # __truediv__ by a scalar
+        return c * la if (rng is None or rng.random() < 0.5) else la * c
+    if k == "addc":
+        la = rec(t["a"])
+        f = b.field(t["c"])
+        if t["neg"]:
+            return la - f
+        return la + f if (rng is None or rng.random() < 0.5) else f + la
+    if k == "mulc":
+        return rec(t["a"]) * b.field(t["d"])
+    if k == "ptw":
+        la = rec(t["a"])
+        if t["f"] == "power":
+            return la ** t["p"][0]                                  # __pow__ with a scalar
+        if t["f"] == "reciprocal" and rng is not None and rng.random() < 0.5:
+            return 1.0 / la                                         # __rtruediv__
+        if t["f"] == "exp" and t["a"]["t"] == "mul" and t["a"]["b"]["t"] == "ptw" and t["a"]["b"]["f"] == "log":
+            return rec(t["a"]["b"]["a"]) ** rec(t["a"]["a"])        # __pow__ with a Linearization exponent
+        return la.ptw(t["f"], *t["p"])
+    if k == "lin":
+        m = np.array(t["rows"], dtype=np.float64).reshape(t["m"], t["n"])
+        L = (ift.MatrixProductOperator(b.sp(t["n"]), m) if t["m"] == t["n"] else dense_op(ift, b.sp(t["n"]), b.sp(t["m"]), m))
+        return L(rec(t["a"]))
+    if k == "sum":
+        return rec(t["a"]).sum()
+    if k == "vdot":
+        return rec(t["a"]).vdot(rec(t["b"]))
+    if k == "getKey":
+        return rec(t["a"])[t["k"]]
+    if k == "putKey":
+        la = rec(t["a"])
+        return ift.FieldAdapter(la.target, t["k"]).adjoint(la)
+    if k == "chain":
+        lg = rec(t["g"])
+        inner = Builder(dom(t["g"]), b.space)
+        return lin_arith(inner, t["f"], lg, rng)
+    if k == "sqnorm":
+        la = rec(t["a"])
+        return ift.Squared2NormOperator(la.target)(la)
+    if k == "quad":
+        return ift.QuadraticFormOperator(ift.makeOp(b.field(t["d"])))(rec(t["a"]))
+    if k == "gauss":
+        return ift.GaussianEnergy(data=b.field(t["data"]), inverse_covariance=ift.makeOp(b.field(t["icov"])))(rec(t["a"]))
+    raise ValueError(k)
+
+
+def linearize_arith(b, t, x, wm, rng=None):
+    """dense val/jac/adj of the tree evaluated by Linearization arithmetic on make_var(x) over the FULL environment"""
+    ift = b.ift
+    p = b.point(x)
+    lin = lin_arith(b, t, ift.Linearization.make_var(p, wm), rng)
+    din, dout = dict(b.indom), dom(t)
+    return dict(val=to_flat(lin.val, dout), jac=dense(lin.jac, b, din, dout),
+                adj=dense(lin.jac.adjoint_times, b, dout, din), din=din,
+                metric=None if lin.metric is None else dense(lin.metric, b, din, din))
